@@ -184,7 +184,11 @@ class Executor:
                 self.ck("C08", "readable", False,
                         f"reading n/r/max_n raised {e!r}", a)
                 return
-            if self.fwd is not None:
+            # (while an online schedule has been asked to advance to or
+            # beyond the true end but has not been told so yet, `n` is where
+            # it asked the forward to go; finalize() corrects it)
+            if self.fwd is not None and (self.finalized
+                                         or self.fwd < self.n_true):
                 self.ck("C08", "n_matches_forward", sn == self.fwd,
                         f"schedule.n={sn} but forward state stands at "
                         f"{self.fwd}", a)
@@ -221,6 +225,19 @@ class Executor:
         elif st == NONE:
             self.ck("C18", "forward_none_nothing", not wi and not wa,
                     "Forward names NONE but has a write flag set", a)
+        # A pre-finalisation Forward requested after the forward has already
+        # reached its true end (the driver finalises late): the solver has no
+        # step left to execute, so nothing is advanced and nothing is stored.
+        if (not self.finalized and self.phase == "forward"
+                and self.fwd is not None and self.fwd >= self.n_true):
+            self.evals["late.forward_beyond_end_skipped"] += 1
+            self.ck("C02", "sweep_contiguous", n0 >= self.n_true,
+                    f"pre-finalisation Forward starts at {n0} although the "
+                    f"forward was already told to advance to {self.n_true}"
+                    " or beyond", a)
+            if self.record:
+                self.log.append(("F-skipped", n0, n1))
+            return True
         # phase structure
         if self.phase == "forward":
             self.ck("C02", "sweep_contiguous",
